@@ -152,6 +152,8 @@ func check(sc Scenario, ex execution) ([]violation, facts) {
 		switch {
 		case wasPut && puts[k].err != nil && r.Err == puts[k].err: //nolint:errorlint
 			// the replayer rejected the message and Publish reports exactly that
+		case r.Err == nil && len(ex.msgTopics[r.Ser]) == 0:
+			bad("C03", "Publish(%s) without topics returned nil, want ErrNoTopic (it cannot be delivered to anybody)", r.Ser)
 		case r.Err == nil:
 			if haveWitness && !wasPut && repPanicAt < 0 {
 				bad("C07", "Publish(%s) returned nil but the message never reached the replayer/fan-out", r.Ser)
@@ -162,6 +164,13 @@ func check(sc Scenario, ex execution) ([]violation, facts) {
 			}
 			if firstShutCall > i {
 				bad("C07", "Publish(%s) returned ErrProviderClosed before any Shutdown was called", r.Ser)
+			}
+		case r.Err == sse.ErrNoTopic: //nolint:errorlint
+			if len(ex.msgTopics[r.Ser]) != 0 {
+				bad("C03", "Publish(%s) returned ErrNoTopic although it was given topics %q", r.Ser, ex.msgTopics[r.Ser])
+			}
+			if wasPut {
+				bad("C03", "Publish(%s) returned ErrNoTopic but the message reached the replayer (record %d)", r.Ser, puts[k].pos)
 			}
 		case r.Err == errPut: //nolint:errorlint
 			if !wasPut || puts[k].err != errPut { //nolint:errorlint
